@@ -9,6 +9,11 @@ design_ref  DESIGN.md section
 """
 
 PROPS = {
+    "C15": {
+        "groups": ["reader"],
+        "design_ref": "§6 C15",
+        "technique": "Lean 4 proof: every reader operation total (no panic), atomic on failure, and ↔ the RFC 1035 §4.1.2/§4.1.3 question/record relation; peek+skip = skip_rr, peek+parse = read_rr; model tied to src/message/reader.rs by differential correspondence on op sequences over generated and truncated messages",
+    },
     "C14": {
         "groups": ["wire"],
         "design_ref": "§6 C14",
